@@ -37,7 +37,7 @@ def SlotOK (H : List Op) (s : Nat) : Option Status → Prop
   | none => ¬ FinH H s ∧ (∀ h, ¬ NotarH H (s, h)) ∧ ∀ h, ¬ FastH H (s, h)
   | some (.notarized h) => NotarH H (s, h) ∧ ¬ FinH H s ∧ ∀ h', ¬ FastH H (s, h')
   | some .finalPending => FinH H s ∧ (∀ h, ¬ NotarH H (s, h)) ∧ ∀ h, ¬ FastH H (s, h)
-  | some (.finalized h) => Final H (s, h)
+  | some (.finalized h) => Direct H (s, h)   -- `Finalized` is only ever written for a directly finalized block
   | some (.implFinalized h) => Final H (s, h)
   | some .implSkipped => Skip H s
 
@@ -49,9 +49,14 @@ theorem slotOK_final {H : List Op} {s : Nat} {o : Option Status} {h : Nat}
     cases x with
     | notarized _ => cases e
     | finalPending => cases e
-    | finalized h' => cases e; exact ok
+    | finalized h' => cases e; exact .direct ok
     | implFinalized h' => cases e; exact ok
     | implSkipped => cases e
+
+/-- a `Finalized` status is justified by a *direct* finalization -/
+theorem slotOK_direct {H : List Op} {s : Nat} {o : Option Status} {h : Nat}
+    (ok : SlotOK H s o) (e : o = some (.finalized h)) : Direct H (s, h) := by
+  subst e; exact ok
 
 theorem slotOK_skip {H : List Op} {s : Nat} {o : Option Status}
     (ok : SlotOK H s o) (e : o = some .implSkipped) : Skip H s := by
@@ -64,7 +69,7 @@ theorem slotOK_mono_dec {H H' : List Op} (hs : Sub H H') {s : Nat} {o : Option S
   cases x with
   | notarized h => cases hd
   | finalPending => cases hd
-  | finalized h => exact Final.mono hs ok
+  | finalized h => exact Direct.mono hs ok
   | implFinalized h => exact Final.mono hs ok
   | implSkipped => exact Skip.mono hs ok
 
@@ -100,7 +105,7 @@ theorem slotOK_snoc_other {H : List Op} {op : Op} {s : Nat} {o : Option Status}
     cases x with
     | notarized h => exact ⟨ok.1.mono hs, fun a => ok.2.1 (hF a), fun h a => ok.2.2 h (hFF h a)⟩
     | finalPending => exact ⟨ok.1.mono hs, fun h a => ok.2.1 h (hN h a), fun h a => ok.2.2 h (hFF h a)⟩
-    | finalized h => exact Final.mono hs ok
+    | finalized h => exact Direct.mono hs ok
     | implFinalized h => exact Final.mono hs ok
     | implSkipped => exact Skip.mono hs ok
 
@@ -160,7 +165,7 @@ theorem Rel.final_complete {G H : List Op} {t : Tracker} (sf : Safe G) (hs : Sub
         · exact absurd d (ok.2.2 b.2)
         · exact absurd d.2 (ok.2.1 b.2)
       | finalized h =>
-        have := sf.final_fun (b.1, h) b (Final.mono hs ok) (Final.mono hs (.direct d)) rfl
+        have := sf.final_fun (b.1, h) b (Final.mono hs (.direct ok)) (Final.mono hs (.direct d)) rfl
         rw [← this]; rfl
       | implFinalized h =>
         have := sf.final_fun (b.1, h) b (Final.mono hs ok) (Final.mono hs (.direct d)) rfl
